@@ -20,7 +20,11 @@ const DISABLED_TAGS: &[&str] = &[];
 /// oracle-signature suffix: the root operator, plus the operator the finding is about when present
 fn sig_site(term: &str) -> String {
     let toks: Vec<&str> = term.split(' ').collect();
-    let is_tick = toks[0] == "tick" || toks[0] == "tcyc";
+    let is_tick = refint::is_tick_head(toks[0]);
+    if matches!(toks[0], "tcyco" | "tcycp" | "tcycs") {
+        // Optional / Singleton tick cycles: the site is the kind of cycle
+        return toks[0].to_string();
+    }
     let root = toks[if is_tick { 1 } else { 0 }].split(':').next().unwrap().to_string();
     if toks.iter().any(|t| *t == "joinlb") { format!("{root}+joinlb") } else { root }
 }
@@ -95,7 +99,7 @@ impl Runner<'_> {
         let fin = refint::show_batch(&refint::canon(e.kind, final_of(e.kind, &outs)));
         self.rec.line("final", &fin);
         let toks: Vec<&str> = e.term.split(' ').collect();
-        let is_tick = toks[0] == "tick" || toks[0] == "tcyc";
+        let is_tick = refint::is_tick_head(toks[0]);
         let root = sig_site(e.term);
         if is_tick {
             // property oracle (C30): every tick's output = the list function of that tick's batch(es)
@@ -146,6 +150,24 @@ impl Runner<'_> {
                     self.rec.count("sched:run_available-with-pending-deferred");
                 }
             }
+            // input distribution of the cycles with an initial value: a tick (not the last one) that sends NULL to
+            // the next tick while the initial collection of the next tick is non-null (the state must stay null)
+            if let (Some(init), Some(next)) = (&tp.init, &tp.next) {
+                self.rec.count(&format!("cyc:{}", toks[0]));
+                let mut null_sent = false;
+                for k in 0..ticks.len().saturating_sub(1) {
+                    if refint::eval_tick(&tp, next, &ticks[..=k]).is_empty() {
+                        null_sent = true;
+                        if !refint::eval_tick(&tp, init, &ticks[..=k + 1]).is_empty() {
+                            self.rec.count("cyc:null-sent-while-initial-non-null");
+                            break;
+                        }
+                    }
+                }
+                if null_sent {
+                    self.rec.count("cyc:null-sent-to-next-tick");
+                }
+            }
         } else {
             // property oracle (C28/C29): final output = meaning on the whole inputs (plain Rust iterators)
             let t = refint::parse(&toks).expect("term");
@@ -194,7 +216,7 @@ impl Runner<'_> {
                 self.rec.count("part:both-ports-over-several-ticks");
             }
         }
-        for op in ["kreduce", "klimit", "kenum", "kfirst", "kunion", "joinlb", "kscan", "kfold", "join", "joinb", "xsing", "defer", "cyc", "across"] {
+        for op in ["kreduce", "klimit", "kenum", "kfirst", "kunion", "joinlb", "kscan", "kfold", "join", "joinb", "xsing", "defer", "cyc", "across", "or", "unwrapor", "sing", "ofirst"] {
             if toks.iter().any(|t| t.split(':').next() == Some(op)) {
                 self.rec.count(&format!("op:{op}"));
             }
@@ -328,6 +350,16 @@ fn main() {
                 let t = c.len();
                 let b = weak_split(&mut rng, &whole[1], t);
                 parts.push((zip_ticks(c, b), "part=comp".into()));
+            }
+        }
+        // values that live across ticks (defer_tick, tick cycles with / without an initial value): longer runs
+        // (3..=7 ticks), so that a value sent in tick k is looked at in tick k+1 AND its absence in tick k+2
+        if mode == "c30" && (e.term.starts_with("tcyc") || e.term.contains("defer") || e.term.contains("ofirst")) {
+            for _ in 0..(if thorough { 4 } else { 2 }) {
+                let t = 3 + rng.below(5) as usize;
+                let a = weak_split(&mut rng, &whole[0], t);
+                let b = weak_split(&mut rng, &whole[1], t);
+                parts.push((zip_ticks(a, b), "part=long".into()));
             }
         }
         // random weak compositions with empty ticks in between
